@@ -227,7 +227,7 @@ pub trait ChanApi<M: 'static, P: 'static> {
 }
 
 pub struct BChan<M: RawMutex + 'static, P: 'static, A: RingBuf<Item = P> + 'static> {
-    ch: &'static GenericChannel<M, P, A>,
+    owner: crate::util::Leaked<GenericChannel<M, P, A>>,
     stream: Option<Pin<Box<ChannelStream<'static, M, P, A>>>>,
     cap: usize,
     growing: bool,
@@ -254,25 +254,25 @@ impl<M: RawMutex + 'static, P: 'static, A: RingBuf<Item = P> + 'static> ChanApi<
         1
     }
     fn send(&self, v: P) -> SFut<M, P> {
-        SFut::B(self.ch.send(v))
+        SFut::B(self.owner.get().send(v))
     }
     fn receive(&self) -> RFut<M, P> {
-        RFut::B(self.ch.receive())
+        RFut::B(self.owner.get().receive())
     }
     fn try_send(&self, v: P) -> Result<(), TrySendError<P>> {
-        self.ch.try_send(v)
+        self.owner.get().try_send(v)
     }
     fn try_receive(&self) -> Result<P, TryReceiveError> {
-        self.ch.try_receive()
+        self.owner.get().try_receive()
     }
     fn close(&self, _via_rx: bool) -> CloseStatus {
-        self.ch.close()
+        self.owner.get().close()
     }
     fn inspect(&self, v: &mut dyn FnMut(Visit) -> bool) {
-        self.ch.verif_inspect(v)
+        self.owner.get().verif_inspect(v)
     }
     fn stream_create(&mut self) {
-        self.stream = Some(Box::pin(self.ch.stream()));
+        self.stream = Some(Box::pin(self.owner.get().stream()));
     }
     fn has_stream(&self) -> bool {
         self.stream.is_some()
@@ -292,10 +292,10 @@ impl<M: RawMutex + 'static, P: 'static, A: RingBuf<Item = P> + 'static> ChanApi<
         Some((f.verif_node_addr(), unsafe { f.verif_node_info() }))
     }
     fn destroy(self: Box<Self>) {
-        let ch = self.ch;
-        drop(self);
+        let me = *self;
+        drop(me.stream);
         // Safety: all futures and the stream have been dropped
-        unsafe { drop(Box::from_raw(ch as *const _ as *mut GenericChannel<M, P, A>)) }
+        unsafe { me.owner.reclaim() }
     }
 }
 
@@ -397,8 +397,10 @@ fn make_api<M: RawMutex + 'static, P: Payload>(cfg: &str) -> Box<dyn ChanApi<M, 
     let cap = cfg_num(cfg, "cap", 1) as usize;
     let buf = cfg_get(cfg, "buf").unwrap_or("array");
     fn b<M: RawMutex + 'static, P: Payload, A: RingBuf<Item = P> + 'static>(cap: usize, growing: bool, heap: bool) -> Box<dyn ChanApi<M, P>> {
-        let ch: &'static GenericChannel<M, P, A> = Box::leak(Box::new(GenericChannel::with_capacity(cap)));
-        Box::new(BChan { ch, stream: None, cap, growing, heap })
+        let owner = crate::util::Leaked::new(GenericChannel::with_capacity(cap));
+        let ch: &'static GenericChannel<M, P, A> = owner.get();
+        let _ = ch;
+        Box::new(BChan { owner, stream: None, cap, growing, heap })
     }
     fn s<M: RawMutex + 'static, P: Payload, A: RingBuf<Item = P> + Send + 'static>(cap: usize, growing: bool, heap: bool) -> Box<dyn ChanApi<M, P>> {
         let (t, r) = generic_channel::<M, P, A>(cap);
@@ -661,14 +663,14 @@ impl<M: RawMutex + 'static, P: Payload> MpmcCore<M, P> {
             let parked = self.view.queues[1].len();
             let exp_b = self.buffered();
             let exp_p = self.order.len() - exp_b;
-            ctx.check("C09", "buffered-count-within-capacity-and-equal-to-model", true, blen <= self.cap && blen == exp_b && parked == exp_p, || {
+            ctx.check("C09", "buffered-count-within-capacity-and-equal-to-model", crate::slots::inspect_on(), blen <= self.cap && blen == exp_b && parked == exp_p, || {
                 format!("buffer holds {} (capacity {}), {} senders parked; reference FIFO expects {} buffered, {} parked", blen, self.cap, parked, exp_b, exp_p)
             });
             // parked senders are queued in send-effect order (oldest at the tail)
             let q: Vec<(u8, u8)> = self.view.oldest_first(1);
             let m_order: Vec<usize> = self.order.iter().filter_map(|e| e.1).collect();
             let q_order: Vec<usize> = q.iter().map(|x| x.1 as usize).collect();
-            ctx.check("C09", "parked-senders-in-send-effect-order", !m_order.is_empty(), q_order == m_order, || format!("send queue (oldest first) {:?}, reference {:?}", q_order, m_order));
+            ctx.check("C09", "parked-senders-in-send-effect-order", !m_order.is_empty() && crate::slots::inspect_on(), q_order == m_order, || format!("send queue (oldest first) {:?}, reference {:?}", q_order, m_order));
         }
         // C10 (a): a value is available and receivers are pending => one of them holds a wake-up
         let mut pend_recv: Vec<(usize, bool)> = self.recvs.v.iter().enumerate().filter(|(_, s)| s.pending()).map(|(i, s)| (i, s.woken())).collect();
@@ -754,7 +756,7 @@ impl<M: RawMutex + 'static, P: Payload> MpmcCore<M, P> {
     }
 
     pub fn enabled(&self, out: &mut Vec<Ev>) {
-        let tags_left = ((self.next_tag - self.base) as usize) < if self.bounded { 500 } else { 4000 };
+        let tags_left = ((self.next_tag - self.base) as usize) < if cfg!(miri) { 300 } else if self.bounded { 500 } else { 4000 };
         let has_tx = self.api().n_tx() > 0;
         let has_rx = self.api().n_rx() > 0;
         let mut created = false;
@@ -1183,7 +1185,7 @@ impl<M: RawMutex + 'static, P: Payload> MpmcCore<M, P> {
         self.post(ctx);
         if self.holders() > 0 {
             let empty = self.view.queues[0].is_empty() && self.view.queues[1].is_empty() && self.view.prim.head == 0 && self.view.prim.head2 == 0;
-            ctx.check("C01", "queue-empty-after-all-futures-dropped", true, empty, || "a wait queue is not empty at the end of the history".into());
+            ctx.check("C01", "queue-empty-after-all-futures-dropped", crate::slots::inspect_on(), empty, || "a wait queue is not empty at the end of the history".into());
         }
         // dropping the channel drops whatever is still buffered, exactly once
         let rest: Vec<u32> = self.order.iter().map(|e| e.0).collect();
